@@ -14,8 +14,10 @@ Definition prop_name (d : decl) : option pstr :=
   | DReadOnly x | DOrdinary x => Some x
   end.
 
-(* the Field the wrapper of a field property captures (faithful to the code,
-   including `fval.default = v` keeping an annotation-derived factory) *)
+(* the Field the wrapper of a field property captures = the default the declaration
+   declares: when field and property have different names the class-level value (plain
+   or Field with a default / factory), else - and when the names coincide, so that only
+   the annotation survives - the default implied by the annotation *)
 Definition rhs_default (t : ty) (r : option rhs) : fdef :=
   match r with
   | None => dfa t
@@ -25,13 +27,8 @@ Definition rhs_default (t : ty) (r : option rhs) : fdef :=
 
 Definition eff_default (st : style) (t : ty) (r : option rhs) : fdef :=
   match st with
-  | PubUnder => rhs_default t r
+  | PubUnder | UnderPub => rhs_default t r
   | PubPub | UnderUnder => dfa t
-  | UnderPub =>
-      match r with
-      | Some (RVal v) => fd_set_default (dfa t) v
-      | _ => rhs_default t r
-      end
   end.
 
 Definition attr1 (d : decl) (n : pstr) : option cval :=
